@@ -155,6 +155,10 @@ FAILING = {
     "fail_star2": "*a, *b = [1, 2]\n",
     "fail_with": "for i in range(3):\n    with open('x') as f:\n        pass\n",
     "fail_syntax": "def (:\n",
+    # deeply nested EXPRESSIONS (the statement-count programs above nest the wrapper calls instead)
+    "fail_deep_binop": "x = " + " + ".join(["1"] * 700) + "\nprint(x)\n",
+    "fail_deep_attr": "import os\nx = os" + ".path" * 600 + "\n",
+    "fail_deep_calls": "f = lambda v: v\nx = " + "f(" * 150 + "1" + ")" * 150 + "\nprint(x)\n",
     "fail_huge_int": "x = 1%s\nprint(x %% 7)\n" % ("0" * 4400),
     "fail_huge_int_hex": "x = 0x1%s\nprint(x %% 7)\n" % ("0" * 4000),
     "fail_continue": "a = 1\nif a:\n    continue\n",
